@@ -16,7 +16,7 @@ def sh(cmd, cwd=None, env=None, timeout=3600):
 
 meta = {"name": name, "property": prop, "ran": []}
 # 1. confirm in the scratch worktree
-rc, out = sh("git stash -q -- hexital 2>/dev/null || git checkout -q -- hexital", cwd=wt)
+rc, out = sh("git checkout -q -- hexital", cwd=wt)
 rc0, out0 = sh("/venv/bin/python MUTANT/demo.py", cwd=wt)
 rcA, outA = sh("git apply MUTANT/patch.diff", cwd=wt)
 rc1, out1 = sh("/venv/bin/python MUTANT/demo.py", cwd=wt)
